@@ -480,4 +480,14 @@ def obligations(tier):
         out.append(SliceDim(sf, 't', 'ab', stride))
     out.append(SliceDim(sf, 'LAY', 'k'))
     out.append(SliceDim(sf, 't', 'k'))
+    # IOAPI files: a selection of time steps also selects the rows of the
+    # TFLAG variable (checks/c10.py obligations, row claims only)
+    from . import c10
+    for name, T in (('slice-TSTEP-list', 4), ('slice-TSTEP-list3', 4),
+                    ('slice-TSTEP-step', 4),
+                    ('slice-TSTEP-slice', 3), ('slice-TSTEP-int', 3)):
+        o = c10.Preserve(name, 2004, T)
+        o.rows_only = True
+        o.name = 'ioapi-' + o.name
+        out.append(o)
     return out
